@@ -153,6 +153,27 @@ theorem C17_setItem_lookup (items : List Item) (name value : List Nat) (hn : nam
     · simpa using hxn
   · exact ⟨⟨name, value⟩, by simp, rfl, rfl⟩
 
+/-- … and no entry of that name keeps an older value — in the sorted vocabulary the conversion scans, whichever entry of the name is
+    met first carries the value of the latest definition (names of any kind: half-width, full-width, mixed) -/
+theorem C17_redefinition_wins (items : List Item) (name value : List Nat) (hn : name ≠ []) :
+    ∀ it ∈ sortItems (setItem items name value), it.name = name → it.value = value := by
+  intro it hit hname
+  have hmem : it ∈ setItem items name value := (List.mergeSort_perm _ _).mem_iff.mp hit
+  unfold setItem at hmem
+  have hne : name.isEmpty = false := by cases name <;> simp_all
+  simp only [hne, Bool.false_eq_true, if_false] at hmem
+  split at hmem
+  · obtain ⟨x, _, hx⟩ := List.mem_map.mp hmem
+    by_cases hxn : (x.name == name) = true
+    · simp only [hxn, if_true] at hx; rw [← hx]
+    · simp only [hxn, if_false] at hx
+      subst hx; exact absurd (by simpa using hname) hxn
+  · rename_i hany
+    rcases List.mem_append.mp hmem with h | h
+    · exact absurd (List.any_eq_true.mpr ⟨it, h, by simpa using hname⟩) hany
+    · have : it = ⟨name, value⟩ := by simpa using h
+      rw [this]
+
 /-- a user definition affects only the text after it: the loop continues on the rest with the
     extended vocabulary; for the definition itself it emits nothing but the line breaks written inside it -/
 theorem C17_user_def_from_point (f : Nat) (items : List Item) (cs : List Nat) :
